@@ -39,6 +39,33 @@ CHECKS = {
          "compiled model with the measured P and end in a terminal model state. Thorough adds exhaustive schedule enumeration for tiny (T,n) as model validation.",
     note="CPython queue.Queue (FIFO, blocking get) and threading are the modelled boundary; abandoning is allowed at any point between two results (a superset of the yield points).",
     ref="DESIGN.md §5 C13, Appendix A.1"),
+ "C02": dict(
+    technique="Lean 4 proof (permutation theorems for the shuffle-buffer and round-robin monitors by counting invariants, lazy-pool exactly-once, batch concatenation, composed per interface) + trace-acceptance correspondence of the real generators and end-to-end multiset comparison through all five interfaces",
+    text="C02_shuffle_buffer_perm, C02_round_robin_perm, C02_round_robin_opens_all, C02_pool_perm, C02_batches_concat and their compositions "
+         "C02_exactly_once_sync/_concurrent/_async: every complete run of an interface yields a permutation of (selected shards' examples).map g, for every shuffle size, "
+         "file_parallelism>=1 and schedule. The monitors are tied to /repo by replaying boundary traces of the real shuffle_buffer/round_robin (sync and async); "
+         "datasets are read through sync/concurrent/async/rust/tf.data and compared as multisets with process_record call counts.",
+    note="tf.data operators and the Rust reader's timing are specified externals (outputs compared). Which shards are selected is C12/C04.",
+    ref="DESIGN.md §5 C02"),
+ "C03": dict(
+    technique="Lean 4 proof (unshuffled output equals a function of the on-disk state for every file_parallelism; session write order from the M-FILL conservation invariant) + end-to-end sequence comparison across passes, reopen, parallelism and delays; batch-structure correspondence",
+    text="C03_sync/_concurrent/_async_unshuffled_eq, C03_interfaces_agree, C03_session_order. The real interfaces are run with shuffle=0 over two passes and a reopened handle, "
+         "file_parallelism 1..#shards+2 and seeded loader delays; sequences must equal the write order; the executor batches are compared with Iter.batches.",
+    note="Executor.map ordering, tf.data deterministic interleave and the Rust channel order are specified externals; the shard enumeration order of nested lists is proved with M-TREE (C04 file).",
+    ref="DESIGN.md §5 C03"),
+ "C14": dict(
+    technique="Lean 4 proof (read-ahead inequalities as invariants over every reachable monitor / LTS state; productivity) + measured read-ahead of the real generators, LazyPool and interfaces on finite and infinite sources",
+    text="C14_shuffle_buffer_readahead (<= b+1, <= b between nexts), C14_shuffle_buffer_prefill, C14_round_robin_readahead (<= b open), C14_pool_inflight (<= 2T+2), "
+         "C14_batches_bounded, C14_shuffle_buffer_productive. Measured pulled-yielded of the real code equals the monitor's value on the same trace; LazyPool read-ahead "
+         "is checked to be independent of the input length; shard opens for k examples of a repeating stream are bounded independently of the dataset size.",
+    note="Memory inside TensorFlow / the Rust extension is out of scope; the shard-path shuffle buffer holds path strings only.",
+    ref="DESIGN.md §5 C14"),
+ "C19": dict(
+    technique="Lean 4 proof (cycle periodicity, repeated one-pass stream, no finish without end-of-source, yielded ⊆ pulled, Rust epoch permutation) + end-to-end prefixes of several epochs through every interface",
+    text="C19_cycle_periodic, C19_unshuffled_stream, C19_shuffle_buffer_never_ends, C19_only_pulled(_rr), C19_rust_epoch. The first m*N+r elements of every interface with "
+         "repeat=True are compared with onepass[k mod N] (unshuffled), checked for membership and non-termination (shuffled) and per-epoch permutation (Rust).",
+    note="tf.data.repeat is a specified external.",
+    ref="DESIGN.md §5 C19"),
 }
 
 def main():
